@@ -194,6 +194,46 @@ def run(ctx):
                 ctx.violation("constant %s folds to %r; the mathematical value is %r%s" % (pool.sources[i], got, want, " (undefined: must be rejected)" if want is None else ""),
                               {"case": pool.sources[i], "impl_output": ev, "oracle_output": want, "theorem_or_correspondence": "S: big-integer oracle / C03_fold_*"})
     pool_meta.clear()
+    # ---------------- 2b. float constants: every operator on the IEEE corner values (signed zero, denormal, huge, infinities and NaN obtained by folding)
+    F = lambda t: ("float", t)
+    fatoms = [(F("0.0"), 0.0), (("unary", "-", F("0.0")), -0.0), (F("1.0"), 1.0), (F("2.5"), 2.5), (("unary", "-", F("2.5")), -2.5), (F("1e308"), 1e308), (F("5e-324"), 5e-324),
+              (("binary", "*", F("1e308"), F("10.0")), float("inf")), (("binary", "*", ("unary", "-", F("1e308")), F("10.0")), float("-inf")),
+              (("binary", "/", F("0.0"), F("0.0")), float("nan"))]
+    fops = ["+", "-", "*", "/", "%", "==", "!=", "<", "<=", ">", ">="]
+    fpool = tircheck.Pool(ctx)
+    fmeta = []
+    for op in fops:
+        for (la, lv) in fatoms:
+            for (ra, rv) in fatoms:
+                if not thorough and rng.random() < 0.4:
+                    continue
+                fpool.add([(("binding_expr", ("binary", op, la, ra)), "float-matrix:%s" % op)])
+                fmeta.append((op, lv, rv))
+    fpool.run()
+    for i, ((op, a, b), e) in enumerate(zip(fmeta, fpool.expected)):
+        ctx.count(("ffold", op, repr(a), repr(b)), True)
+        r = fpool.impl[i]
+        if e is None:
+            ctx.violation("constant expression crashes the builder: %r" % (r,), {"case": fpool.sources[i], "impl_output": r})
+            continue
+        ev = r.get("eval") if isinstance(r, dict) else None
+        if not isinstance(ev, dict):
+            continue                      # rejected: always safe for C03
+        want = oracle_float(op, a, b)
+        if isinstance(want, bool):
+            got = ev.get("bool")
+            ok = got == want
+        else:
+            got = ev.get("float")
+            wb = struct.unpack("<Q", struct.pack("<d", want))[0]
+            ok = got is not None and (got == wb or (want != want and (got & 0x7ff0000000000000) == 0x7ff0000000000000 and (got & 0xfffffffffffff) != 0))
+        if not ok:
+            ctx.violation("constant %s folds to %r; its IEEE-754 / ECMAScript value is %r" % (fpool.sources[i], ev, want),
+                          {"case": fpool.sources[i], "impl_output": ev, "oracle_output": repr(want), "theorem_or_correspondence": "S: IEEE-754 oracle"})
+    fbad = fpool.compare_model() if ctx.model_ok else []
+    ctx.coverage["float_fold_disagreements_model"] = len(fbad)
+    if fbad and not ctx.violations:
+        ctx.broke("K", "tir/ceval.rs (floats) vs model/Ceval.v + Floats.v", "model and implementation differ on %d float constants; first:\n%s" % (len(fbad), fpool.describe_mismatch(fbad[0])))
     bad = pool.compare_model() if ctx.model_ok else []
     ctx.coverage["fold_disagreements_model"] = len(bad)
     if bad and not ctx.violations:
@@ -267,6 +307,38 @@ def oracle_string(body):
         else:
             out.append(n); i += 2                   # any other character stands for itself (8 and 9 included)
     return "".join(out)
+
+
+def oracle_float(op, a, b):
+    """IEEE-754 binary64 / ECMAScript value of `a op b` on doubles (Python floats are binary64; the cases Python refuses are spelled out)"""
+    import math
+    nan, inf = float("nan"), float("inf")
+    if op in ("==", "!=", "<", "<=", ">", ">="):
+        if a != a or b != b:
+            return op == "!="
+        return {"==": a == b, "!=": a != b, "<": a < b, "<=": a <= b, ">": a > b, ">=": a >= b}[op]
+    if a != a or b != b:
+        return nan
+    if op == "+":
+        return a + b
+    if op == "-":
+        return a - b
+    if op == "*":
+        return a * b
+    if op == "/":
+        if b == 0.0:
+            if a == 0.0:
+                return nan
+            neg = (math.copysign(1.0, a) < 0) != (math.copysign(1.0, b) < 0)
+            return -inf if neg else inf
+        return a / b
+    if op == "%":
+        if math.isinf(a) or b == 0.0:
+            return nan
+        if math.isinf(b):
+            return a
+        return math.fmod(a, b)
+    raise KeyError(op)
 
 
 def oracle_fold(op, a, b):
